@@ -620,6 +620,70 @@ def run(chk):
         for arg in ("sel ? ca(c) : cb(c)", "last = ca(c)"):
             cases.append(("%s(c, %s)" % (mac, arg), "pt_state_t w_f(pt_t *pt, pt_t *c) { PT_BEGIN(pt); %s(c, ARG); PT_END(); }" % mac, arg))
     macrohyg.check_parenthesised_equivalence(chk, "V4.argument-hygiene", "librfn/protothreads.h", prelude, cases)
+    chk.rule("V5", "PT_CALL's polling loop is left only on the child's own result (no counter or flag ends it early)")
+    check_call_runs_to_completion(chk)
+
+
+def check_call_runs_to_completion(chk, cfg="default"):
+    """V5.call-completes: PT_CALL(child, thread) "runs a protothread without ever yielding": the polling loop it expands to is left
+    only because of what the child's latest invocation returned.  In the compiled witness every edge out of the cycle that contains
+    the child's call must be decided by a comparison of that call's result with a constant - an exit decided by anything else (a
+    poll counter that runs out, a timeout) lets the parent continue past an unfinished child."""
+    src = ("#include <librfn/protothreads.h>\nextern pt_state_t ca(pt_t *);\n"
+           "pt_state_t w_call(pt_t *pt, pt_t *c) { PT_BEGIN(pt); PT_CALL(c, ca(c)); PT_END(); }\n")
+    try:
+        m = build.compile_text("pt_call_completes.c", src, cfg, inline_except=())
+    except AnalysisError as e:
+        chk.unknown("V5.call-completes", "PT_CALL", "the witness does not compile: %s" % str(e)[-200:])
+        return
+    chk.note_unit(m)
+    fn = m.fn("w_call")
+    calls = [i for i in fn.real_insts() if i.op == "call" and i.callee == "ca"]
+    if len(calls) != 1 or not fn.in_cycle(calls[0]):
+        chk.ob("V5.call-completes", "PT_CALL", False,
+               "PT_CALL does not poll the child in a loop (%d calls of the child, in a cycle: %s): a child that blocks once is never "
+               "resumed" % (len(calls), bool(calls) and fn.in_cycle(calls[0])), "include/librfn/protothreads.h", "PT_CALL")
+        return
+    call = calls[0]
+    cb = call.block
+    # the cycle: blocks that can reach the call's block and are reachable from it
+    cyc = set(b.name for b in fn.order if fn.can_reach(cb.insts[0], b.insts[0]) and fn.can_reach(b.insts[0], cb.insts[0])) | {cb.name}
+    n = 0
+    for bn in sorted(cyc):
+        t = fn.blocks[bn].term
+        if t.op != "br" or t.cond is None:
+            if t.op in ("ret", "switch"):
+                chk.unknown("V5.call-completes", "PT_CALL exit at %s" % bn, "%s inside the polling cycle" % t.op)
+            continue
+        outs = [s_ for s_ in t.succs if s_ not in cyc]
+        if not outs:
+            continue
+        n += 1
+        v = t.cond
+        for _ in range(6):
+            d = v.inst if v.k == "inst" else None
+            if d is not None and d.op in ("zext", "sext", "trunc"):
+                v = d.ops[0]
+            elif d is not None and d.op == "xor" and any(o.is_const_int() for o in d.ops):
+                v = [o for o in d.ops if not o.is_const_int()][0]
+            else:
+                break
+        d = v.inst if v.k == "inst" else None
+        ok = False
+        if d is not None and d.op == "icmp":
+            ops = list(d.ops)
+            nc = [o for o in ops if not o.is_const_int()]
+            if len(nc) == 1:
+                x = nc[0]
+                for _ in range(4):
+                    if x.k == "inst" and x.inst is not None and x.inst.op in ("zext", "sext", "trunc"):
+                        x = x.inst.ops[0]
+                ok = x.k == "inst" and x.name == call.name
+        chk.ob("V5.call-completes", "PT_CALL exit at %s" % bn.lstrip("%"), ok,
+               "the polling loop is left on a comparison of the child's latest result with a constant" if ok else
+               "the polling loop of PT_CALL can be left on a condition that is not the child's result (a counter, a flag): the parent "
+               "then runs on past a child that has not finished", t.loc, "PT_CALL")
+    chk.expect("V5", "exits of PT_CALL's polling loop", n, 1)
 
 
 def check_state_cell(chk, src, cfg="default"):
